@@ -8,8 +8,10 @@ Nothing here parses Liquid text.  A program is ``{name: items}``; an item is a J
     ["b", name, required, body, end]     {% block name [required] %}body{% endblock [end] %}
     ["if", var, body]                    {% if var %}body{% endif %}
     ["for", var, n, body]                {% for var in (1..n) %}body{% endfor %}
+    ["forin", var, listvar, body]        {% for var in listvar %}body{% endfor %}
     ["as", name, value]                  {% assign name = 'value' %}
     ["inc", kind, target, kwargs]        {% include|render 'target'[, k: var ...] %}
+                                         (target "@var" = {% include var %}, name from scope)
     ["x", parent]                        {% extends 'parent' %}
 
 `expected()` gives the outcome the property demands when template *entry* is rendered:
@@ -99,7 +101,7 @@ def walk(items: list) -> Any:
             stack.extend((c, it[1]) for c in reversed(it[3]))
         elif k == "if":
             stack.extend((c, encl) for c in reversed(it[2]))
-        elif k == "for":
+        elif k in ("for", "forin"):
             stack.extend((c, encl) for c in reversed(it[3]))
 
 
@@ -254,6 +256,14 @@ class Ref:
                         self._items(it[3], e, cur, owner, scope, out)
                     finally:
                         scope.pop()
+            elif k == "forin":
+                seq = self._lookup(scope, it[2])
+                for v in seq if isinstance(seq, list) else []:
+                    scope.append({it[1]: v})
+                    try:
+                        self._items(it[3], e, cur, owner, scope, out)
+                    finally:
+                        scope.pop()
             elif k == "as":
                 scope[1][it[1]] = it[2]
             elif k == "inc":
@@ -314,6 +324,10 @@ class Ref:
 
     def _include(self, it, e, scope, out) -> None:  # noqa: ANN001
         _, kind, target, kwargs = it
+        if target.startswith("@"):  # {% include var %}: the name comes from the scope
+            target = self._lookup(scope, target[1:])
+            if not isinstance(target, str):
+                raise RefError("missing", f"dynamic include of {target!r}")
         frame = {k: self._lookup(scope, v) for k, v in kwargs.items()}
         if kind == "include":
             scope.append(frame)
@@ -366,11 +380,16 @@ def emit_items(items: list) -> str:
             parts.append(
                 "{%% for %s in (1..%d) %%}%s{%% endfor %%}" % (it[1], it[2], emit_items(it[3]))
             )
+        elif k == "forin":
+            parts.append(
+                "{%% for %s in %s %%}%s{%% endfor %%}" % (it[1], it[2], emit_items(it[3]))
+            )
         elif k == "as":
             parts.append("{%% assign %s = '%s' %%}" % (it[1], it[2]))
         elif k == "inc":
             kw = "".join(f", {a}: {b}" for a, b in it[3].items())
-            parts.append("{%% %s '%s'%s %%}" % (it[1], it[2], kw))
+            tgt = it[2][1:] if it[2].startswith("@") else "'%s'" % it[2]
+            parts.append("{%% %s %s%s %%}" % (it[1], tgt, kw))
         elif k == "x":
             parts.append("{%% extends '%s' %%}" % it[1])
         else:  # pragma: no cover
